@@ -288,13 +288,40 @@ theorem lazy_eq_eager_written (nref : Nat) (r : Rec) (b : Bytes) (hw : WF r)
       split <;> simp [norm, keep, CG]
     rw [this]
 
-/-- After `validate`, no lazy accessor indexes outside the buffer. The one remaining panic is
-`Cigar::iter`'s `unreachable!()` when the `CG` field taken as CIGAR is an array whose byte length
-is not a multiple of four (reported for C15; the eager decoder rejects such a record). -/
+/-- After `validate`, no lazy accessor panics: none indexes outside the buffer, and `Cigar::iter`
+never reaches its `unreachable!()` — the bytes it iterates are the `4 * n_cigar_op` bytes of the
+CIGAR slot or the payload of a `CG:B:I` array. (Before the fix "bam record cigar panicked on a CG
+tag that is not a u32 array" a `CG` array of ANY subtype was taken as the CIGAR, and one whose byte
+length is not a multiple of four panicked; `get_raw_cigar` now walks over such a field.) -/
 theorem lazy_in_bounds (b : Bytes) (h : validate b = .ok ()) :
     lazyName b ≠ .panic ∧ lazySeq b ≠ .panic ∧ lazyQual b ≠ .panic ∧ lazyRawData b ≠ .panic ∧
-    lazyCigarBytes b ≠ .panic ∧ lazyData b ≠ .panic ∧
-    (lazyCigar b = .panic → ∃ buf, lazyCigarBytes b = .ok (buf, true) ∧ buf.length % 4 ≠ 0) :=
+    lazyCigarBytes b ≠ .panic ∧ lazyData b ≠ .panic ∧ lazyCigar b ≠ .panic :=
   lazy_in_bounds_of_len b (validate_inv b h)
+
+/-- The input that panicked before the fix: the placeholder `0S7N` (`l_seq = 0`) and the data
+`CG:B:C,16,32,48` — a `CG` array of three BYTES. -/
+def cgByteArray : Bytes :=
+  [255, 255, 255, 255, 255, 255, 255, 255, 2, 255, 72, 18, 2, 0, 4, 0,
+   0, 0, 0, 0, 255, 255, 255, 255, 255, 255, 255, 255, 0, 0, 0, 0,
+   42, 0, 4, 0, 0, 0, 115, 0, 0, 0,
+   67, 71, 66, 67, 3, 0, 0, 0, 16, 32, 48]
+
+/-- …now the `CG:B:C` field is not the CIGAR: `cigar()` is the placeholder stored in the record and
+`data()` still lists the field (checked against the real code: `SoftClip:0, Skip:7` / `CG=[16,32,48]`).
+The eager decoder rejects the record (`InvalidDataType`), as before. -/
+example : lazyCigarBytes cgByteArray = .ok ([4, 0, 0, 0, 115, 0, 0, 0], false) ∧
+    lazyCigar cgByteArray = .ok [⟨4, 0⟩, ⟨3, 7⟩] ∧
+    lazyData cgByteArray = .ok ([(CG, .arr .C [16, 32, 48])], false) := by decide
+
+example : validate cgByteArray = .ok () := by rfl
+example : decode cgByteArray = .error .invalid := by rfl
+
+/-- `get_raw_cigar` goes on scanning after a `CG` field of another type: with `CG:B:I,[3M]` appended,
+`cigar()` is `3M`, and the data view (which skips EVERY `CG` field once the CIGAR was taken from one)
+is empty (checked against the real code). The eager decoder rejects the duplicate tag. -/
+example : lazyCigar (cgByteArray ++ [67, 71, 66, 73, 1, 0, 0, 0, 48, 0, 0, 0]) = .ok [⟨0, 3⟩] ∧
+    lazyData (cgByteArray ++ [67, 71, 66, 73, 1, 0, 0, 0, 48, 0, 0, 0]) = .ok ([], false) := by decide
+
+example : decode (cgByteArray ++ [67, 71, 66, 73, 1, 0, 0, 0, 48, 0, 0, 0]) = .error .invalid := by rfl
 
 end Noodles.Props.C05
